@@ -78,8 +78,8 @@ class Build:
         sets = source_sets()
         srcs = [REPO + "/SRC/" + s for s in sets["common"] + sets[self.prec] if s != "sp_ienv.c"]
         # z needs dmach/dlacon-independent helpers already in its list; c/z lists contain [sd]mach via cmake? add if missing
-        need = {"z": "dmach.c", "c": "smach.c"}.get(self.prec)
-        if need and (REPO + "/SRC/" + need) not in srcs: srcs.append(REPO + "/SRC/" + need)
+        for need in ("dmach.c",) + (("smach.c",) if self.prec in "sc" else ()):   # mc64ad.c (common) calls dmach in every precision
+            if (REPO + "/SRC/" + need) not in srcs: srcs.append(REPO + "/SRC/" + need)
         srcs += [REPO + "/CBLAS/" + b + ".c" for b in CBLAS[self.prec]]
         if self.prec == "z": srcs += [REPO + "/CBLAS/" + b + ".c" for b in ("dcopy", "daxpy", "dscal", "dasum", "idamax", "dnrm2", "ddot")]
         if self.prec == "c": srcs += [REPO + "/CBLAS/" + b + ".c" for b in ("scopy", "saxpy", "sscal", "sasum", "isamax", "snrm2", "sdot")]
